@@ -29,50 +29,80 @@ def deltaJson (d : Reg.Delta Nat) : Json :=
               ("acc", Json.str (toHex d.acc)),
               ("issued", setJson d.issued), ("revoked", setJson d.revoked)]
 
-def stepOut (status : String) (acc : Nat) (delta : Option (Reg.Delta Nat)) (wit : Option Nat) : Json :=
-  Json.mkObj [("status", status), ("acc", Json.str (toHex acc)),
-              ("delta", match delta with | some d => deltaJson d | none => Json.null),
-              ("witness", match wit with | some w => Json.str (toHex w) | none => Json.null)]
+structure HolderSt where
+  idx : Nat
+  upd : Outcome Nat
 
-/-- run a history; on `err`/`panic` the registry is unchanged and the history goes on -/
+def outHex : Outcome Nat → Json
+  | .ok a => Json.str (toHex a)
+  | .err => Json.str "err"
+  | .panic => Json.str "panic"
+
+/-- run a history; on `err`/`panic` the registry is unchanged and the history goes on.
+    For every index in `holders` (credentials handed out by an accepted `issue`), each later
+    step reports the witness obtained by step-wise `Witness::update` of the issuance witness
+    and the one computed from scratch by `Witness::new` from the merged cumulative delta. -/
 def regHistory (inp : Json) : Except String Json := do
   let L ← getNat inp "L"
   let byDefault ← getBool inp "by_default"
   let γ ← getHex inp "gamma"
   let m ← getMode inp
   let ops ← getArr inp "ops"
+  let holderIdx := (getNatList inp "holders").toOption.getD []
   let mut acc := Reg.initialState fr γ L byDefault
   let init := acc
   let mut outs : Array Json := #[]
+  let mut holders : List HolderSt := []
+  let mut cum : Option (Reg.Delta Nat) := none
   for op in ops do
     let kind ← getStr op "op"
-    match kind with
-    | "issue" =>
-      let i ← getNat op "i"
-      match Reg.issue fr γ m L byDefault acc i with
-      | .ok (a, d, w) => acc := a; outs := outs.push (stepOut "ok" a d (some w))
-      | .err => outs := outs.push (stepOut "err" acc none none)
-      | .panic => outs := outs.push (stepOut "panic" acc none none)
-    | "revoke" =>
-      let i ← getNat op "i"
-      match Reg.revoke fr γ m L acc i with
-      | .ok (a, d) => acc := a; outs := outs.push (stepOut "ok" a (some d) none)
-      | .err => outs := outs.push (stepOut "err" acc none none)
-      | .panic => outs := outs.push (stepOut "panic" acc none none)
-    | "unrevoke" =>
-      let i ← getNat op "i"
-      match Reg.unrevoke fr γ m L acc i with
-      | .ok (a, d) => acc := a; outs := outs.push (stepOut "ok" a (some d) none)
-      | .err => outs := outs.push (stepOut "err" acc none none)
-      | .panic => outs := outs.push (stepOut "panic" acc none none)
-    | "update" =>
-      let iss ← getNatList op "issued"
-      let rev ← getNatList op "revoked"
-      match Reg.update fr γ m L acc (dedupSorted (sortNat iss)) (dedupSorted (sortNat rev)) with
-      | .ok (a, d) => acc := a; outs := outs.push (stepOut "ok" a (some d) none)
-      | .err => outs := outs.push (stepOut "err" acc none none)
-      | .panic => outs := outs.push (stepOut "panic" acc none none)
-    | k => throw s!"unknown registry op {k}"
+    let mut status := "ok"
+    let mut delta : Option (Reg.Delta Nat) := none
+    let mut wit : Option Nat := none
+    let mut newHolder : Option HolderSt := none
+    let mop : Reg.Op ← match kind with
+      | "issue" => do pure (Reg.Op.issue (← getNat op "i"))
+      | "revoke" => do pure (Reg.Op.revoke (← getNat op "i"))
+      | "unrevoke" => do pure (Reg.Op.unrevoke (← getNat op "i"))
+      | "update" => do
+        let iss ← getNatList op "issued"
+        let rev ← getNatList op "revoked"
+        pure (Reg.Op.update (dedupSorted (sortNat iss)) (dedupSorted (sortNat rev)))
+      | k => throw s!"unknown registry op {k}"
+    match Reg.step fr γ m L byDefault acc mop with
+    | .ok so =>
+      acc := so.acc; delta := so.delta; wit := so.witness
+      match mop, so.witness with
+      | .issue i, some w =>
+        if holderIdx.contains i && !(holders.any (·.idx == i)) then
+          newHolder := some ⟨i, .ok w⟩
+      | _, _ => pure ()
+    | .err => status := "err"
+    | .panic => status := "panic"
+    -- holders issued before this step consume the delta
+    match delta with
+    | some d =>
+      holders := holders.map fun h =>
+        match h.upd with
+        | .ok ω => { h with upd := Reg.witnessUpdate fr γ m L h.idx ω d }
+        | _ => h
+      cum := match cum with
+        | none => some d
+        | some c => match Reg.merge (fun a b => a == b) c d with
+          | .ok c' => some c'
+          | _ => some c
+    | none => pure ()
+    match newHolder with
+    | some h => holders := holders ++ [h]
+    | none => pure ()
+    let cumd : Reg.Delta Nat := cum.getD ⟨none, acc, [], []⟩
+    let hj := holders.map fun h =>
+      (toString h.idx, Json.mkObj [("upd", outHex h.upd),
+        ("new", outHex (Reg.witnessNew fr γ m L byDefault h.idx cumd))])
+    outs := outs.push (Json.mkObj [("status", status), ("acc", Json.str (toHex acc)),
+      ("delta", match delta with | some d => deltaJson d | none => Json.null),
+      ("witness", match wit with | some w => Json.str (toHex w) | none => Json.null),
+      ("holders", Json.mkObj hj)])
   return Json.mkObj [("init", Json.str (toHex init)), ("steps", Json.arr outs)]
 
 def forIssued (inp : Json) : Except String Json := do
